@@ -161,6 +161,11 @@ theorem sum_default_identity :
   ⟨fun a => ⟨sumItem_dflt_left a, sumItem_dflt_right a⟩, fun a => ⟨sumAddItem_dflt_left a, sumAddItem_dflt_right a⟩,
    fun a => ⟨strCatItem_dflt_left a, strCatItem_dflt_right a⟩⟩
 
+/-- `Sum` over the non-commutative concatenation type (`sum:cat`): the empty word is a two-sided identity -/
+theorem sum_noncommutative_default_identity (a : List Nat) :
+    catSumItem.op (catSumItem.val catSumItem.dflt) a = a ∧ catSumItem.op a (catSumItem.val catSumItem.dflt) = a :=
+  catSumItem_dflt a
+
 /-- the two flip / count-ones items (zero-sized and one-byte modifier): unconditional two-sided identity. -/
 theorem flip_default_identity (a : Int × Int) :
     (flipZItem.op (flipZItem.val flipZItem.dflt) a = a ∧ flipZItem.op a (flipZItem.val flipZItem.dflt) = a) ∧
@@ -179,6 +184,45 @@ theorem combinator_default_identity {U B : Type} (I : Item T M A) (J : Item U M 
     (prodItem I J).op ((prodItem I J).val (prodItem I J).dflt) a = a ∧
     (prodItem I J).op a ((prodItem I J).val (prodItem I J).dflt) = a :=
   ⟨prodItem_dflt_left I J a hl1 hl2, prodItem_dflt_right I J a hr1 hr2⟩
+
+/-- Element types whose order ignores part of the value (records ordered by key, floats): `Default` of the keyed `Min` /
+    `MinAdd` (`d` = the type's `MAX`) is a left identity on every element whose key does not exceed `d`'s — the forward search
+    starts from it — and a right identity on the elements strictly below (and on `d` itself); mirror image for `Max` / `MaxAdd`
+    (`d` = the type's `MIN`).  For `f64` / `f32`: `d` = `f64::MAX` / `f64::MIN`, i.e. every finite element (and `-∞` under
+    `Min`, `+∞` under `Max`). -/
+theorem keyed_default_identity (d a : KV) :
+    (a.k ≤ d.k → (minKItem d).op ((minKItem d).val (minKItem d).dflt) a = a ∧
+      (minAddKItem d).op ((minAddKItem d).val (minAddKItem d).dflt) a = a) ∧
+    (a.k < d.k ∨ a = d → (minKItem d).op a ((minKItem d).val (minKItem d).dflt) = a ∧
+      (minAddKItem d).op a ((minAddKItem d).val (minAddKItem d).dflt) = a) ∧
+    (d.k ≤ a.k → (maxKItem d).op ((maxKItem d).val (maxKItem d).dflt) a = a ∧
+      (maxAddKItem d).op ((maxAddKItem d).val (maxAddKItem d).dflt) a = a) ∧
+    (a.k > d.k ∨ a = d → (maxKItem d).op a ((maxKItem d).val (maxKItem d).dflt) = a ∧
+      (maxAddKItem d).op a ((maxAddKItem d).val (maxAddKItem d).dflt) = a) :=
+  ⟨fun h => ⟨minKItem_dflt_left d a h, minAddKItem_dflt_left d a h⟩,
+   fun h => ⟨minKItem_dflt_right d a h, minAddKItem_dflt_right d a h⟩,
+   fun h => ⟨maxKItem_dflt_left d a h, maxAddKItem_dflt_left d a h⟩,
+   fun h => ⟨maxKItem_dflt_right d a h, maxAddKItem_dflt_right d a h⟩⟩
+
+/-- it is the type's real `MIN` that `Max` needs: a `Default` above an element (what `MinMax::MIN = MIN_POSITIVE` is for every
+    float element `≤ 0`, seeded change C02_m10) is **not** an identity on it — the search shows the predicate the seed
+    instead of the range maximum -/
+theorem max_default_needs_type_min (d a : KV) (h : a.k < d.k) (hne : a ≠ d) :
+    (maxKItem d).op ((maxKItem d).val (maxKItem d).dflt) a ≠ a := maxKItem_dflt_not_identity d a h hne
+
+/-- the float constants the driver prints for `const f64` / `const f32` are the IEEE bit patterns of `MAX`, `MIN = -MAX`,
+    `1.0`; the integer `maxInt` (the `Default` of the additive float items in the model) is `MAX`; both zeros have key 0 and
+    the key is monotone in the value on either side of zero (`ordKey`) -/
+theorem float_constants :
+    (f64Fmt.maxBits = 0x7FEFFFFFFFFFFFFF ∧ f64Fmt.minBits = 0xFFEFFFFFFFFFFFFF ∧ f64Fmt.oneBits = 0x3FF0000000000000) ∧
+    (f32Fmt.maxBits = 0x7F7FFFFF ∧ f32Fmt.minBits = 0xFF7FFFFF ∧ f32Fmt.oneBits = 0x3F800000) ∧
+    (f64Fmt.ofInt f64Fmt.maxInt = f64Fmt.maxBits ∧ f64Fmt.ofInt (-f64Fmt.maxInt) = f64Fmt.minBits) ∧
+    (f32Fmt.ofInt f32Fmt.maxInt = f32Fmt.maxBits ∧ f32Fmt.ofInt (-f32Fmt.maxInt) = f32Fmt.minBits) ∧
+    (∀ f : FloatFmt, f.ordKey 0 = 0 ∧ f.ordKey f.signBit = 0) ∧
+    (∀ (f : FloatFmt) (a b : Nat), b < f.signBit → a < b → f.ordKey a < f.ordKey b) ∧
+    (∀ (f : FloatFmt) (a b : Nat), f.signBit ≤ a → a < b → f.ordKey b < f.ordKey a) :=
+  ⟨⟨f64_consts.1, f64_consts.2.1, f64_consts.2.2.1⟩, ⟨f32_consts.1, f32_consts.2.1, f32_consts.2.2.1⟩,
+   by decide +kernel, by decide +kernel, ordKey_zeros, ordKey_mono_pos, ordKey_anti_neg⟩
 
 /-! ## non-vacuity -/
 
@@ -237,6 +281,21 @@ example : Spec.first (guardItem (minItem ⟨false, 64⟩) noGuard)
 
 /-- canonical residues exist (e.g. a leaf), so `affHash_default_identity` is not vacuous -/
 example : AffCanon (affHashItem.val (affLeaf 5)) := by unfold AffCanon; decide
+
+/-- `Max<f64>` over `[-3.0, -1.5, -2.0]`, `lower_bound(0, v >= -2.0)` (as `v > pred(-2.0)` is not needed: the keys are
+    integers, `v > -2.5`): the first index is 1; with `MIN_POSITIVE` as the seed the very first probe would be the seed -/
+example :
+    let e : Nat → KV := fun b => ⟨f64Fmt.ordKey b, b⟩
+    let xs := [e 0xC008000000000000, e 0xBFF8000000000000, e 0xC000000000000000]
+    Spec.first (maxKItem (e f64Fmt.minBits)) xs 0 (fun x => decide (x.k > f64Fmt.ordKey 0xC004000000000000)) = some 1 ∧
+    Spec.monoFwd (maxKItem (e f64Fmt.minBits)) xs 0 (fun x => decide (x.k > f64Fmt.ordKey 0xC004000000000000)) = true ∧
+    (maxKItem (e 0x0010000000000000)).op ((maxKItem (e 0x0010000000000000)).val (maxKItem (e 0x0010000000000000)).dflt)
+      (e 0xC008000000000000) ≠ e 0xC008000000000000 := by decide
+
+/-- `keyed_default_identity` at its boundary: the element equal to the default, both zeros under `Max<f64>` -/
+example : (maxKItem ⟨f64Fmt.ordKey f64Fmt.minBits, f64Fmt.minBits⟩).op ⟨f64Fmt.ordKey f64Fmt.minBits, f64Fmt.minBits⟩
+      ⟨f64Fmt.ordKey 0x8000000000000000, 0x8000000000000000⟩ = ⟨0, 0x8000000000000000⟩ ∧
+    (minKItem ⟨i64Max, 0⟩).op ⟨i64Max, 0⟩ ⟨i64Max, 7⟩ = ⟨i64Max, 7⟩ := by decide
 
 end examples
 
